@@ -54,6 +54,93 @@ type c04Flow struct {
 	descend func(call *ast.CallExpr) *FG
 	// effect: event marks a node leaves in the state (keys starting with '#')
 	effect func(n ast.Node, env c04Env) c04Env
+	// refine: a branch on a condition the state does not decide records, on each edge, what that edge implies
+	// for the tracked slots the condition is built from (`if !vx.f {` … the true edge continues with f=false)
+	refine bool
+	// bindArgs: when a callee is analysed in place its boolean parameters start with the value of the arguments
+	bindArgs bool
+	// maxDepth: nesting limit of callees analysed in place (0: the default, 3)
+	maxDepth int
+}
+
+// assume: env refined by "e evaluates to want" (only for the slots that e determines: negations, the operands
+// of a true conjunction / false disjunction, one-line accessors).
+func (f *c04Flow) assume(info *types.Info, e ast.Expr, want bool, env c04Env, depth int) c04Env {
+	e = unparen(e)
+	switch t := e.(type) {
+	case *ast.UnaryExpr:
+		if t.Op == token.NOT {
+			return f.assume(info, t.X, !want, env, depth)
+		}
+	case *ast.BinaryExpr:
+		if t.Op == token.LAND && want || t.Op == token.LOR && !want {
+			return f.assume(info, t.Y, want, f.assume(info, t.X, want, env, depth), depth)
+		}
+		if k, eq, ok := f.nilTest(info, t); ok {
+			if _, known := env[k]; !known {
+				env = env.clone()
+				env[k] = want == eq
+			}
+			return env
+		}
+		if (t.Op == token.EQL || t.Op == token.NEQ) && c04IsBool(info, t.X) && c04IsBool(info, t.Y) {
+			if v, known := f.eval(info, t.Y, env, 0); known {
+				return f.assume(info, t.X, (v == want) == (t.Op == token.EQL), env, depth)
+			}
+			if v, known := f.eval(info, t.X, env, 0); known {
+				return f.assume(info, t.Y, (v == want) == (t.Op == token.EQL), env, depth)
+			}
+		}
+	case *ast.CallExpr:
+		if len(t.Args) == 0 && depth < 3 {
+			if fn := calleeOf(info, t); fn != nil {
+				if fi := f.p.FuncOfObj(fn); fi != nil && fi.Decl.Body != nil && len(fi.Decl.Body.List) == 1 {
+					if rs, ok := fi.Decl.Body.List[0].(*ast.ReturnStmt); ok && len(rs.Results) == 1 {
+						return f.assume(fi.Pkg.TypesInfo, rs.Results[0], want, env, depth+1)
+					}
+				}
+			}
+		}
+	case *ast.Ident, *ast.SelectorExpr:
+		if k, ok := f.slot(info, e); ok {
+			if _, known := env[k]; !known {
+				env = env.clone()
+				env[k] = want
+			}
+		}
+	}
+	return env
+}
+
+// bound: env with the boolean parameters of callee graph sg set from the arguments of call (evaluated in env).
+func (f *c04Flow) bound(info *types.Info, call *ast.CallExpr, sg *FG, env c04Env) c04Env {
+	if sg.Type == nil || sg.Type.Params == nil {
+		return env
+	}
+	i := 0
+	out := env
+	for _, fld := range sg.Type.Params.List {
+		if len(fld.Names) == 0 {
+			i++
+			continue
+		}
+		for _, nm := range fld.Names {
+			if i < len(call.Args) && call.Ellipsis == token.NoPos {
+				if _, variadic := fld.Type.(*ast.Ellipsis); !variadic {
+					if k, ok := f.slot(sg.Info, nm); ok {
+						out = out.clone()
+						if v, known := f.eval(info, call.Args[i], env, 0); known {
+							out[k] = v
+						} else {
+							delete(out, k)
+						}
+					}
+				}
+			}
+			i++
+		}
+	}
+	return out
 }
 
 func c04IsBool(info *types.Info, e ast.Expr) bool {
@@ -87,6 +174,50 @@ func (f *c04Flow) slot(info *types.Info, e ast.Expr) (string, bool) {
 		}
 	}
 	return "", false
+}
+
+// nilSlot (refine mode): the state key "this error-typed local is nil".
+func (f *c04Flow) nilSlot(info *types.Info, e ast.Expr) (string, bool) {
+	if !f.refine {
+		return "", false
+	}
+	id, ok := unparen(e).(*ast.Ident)
+	if !ok {
+		return "", false
+	}
+	v, ok := info.ObjectOf(id).(*types.Var)
+	if !ok || v.IsField() || v.Pkg() == nil || v.Parent() == nil || v.Parent() == v.Pkg().Scope() {
+		return "", false
+	}
+	if !types.Identical(v.Type(), types.Universe.Lookup("error").Type()) {
+		return "", false
+	}
+	return "local:nil:" + sprintfPtr(v), true
+}
+
+func c04IsNilIdent(info *types.Info, e ast.Expr) bool {
+	id, ok := unparen(e).(*ast.Ident)
+	if !ok || id.Name != "nil" {
+		return false
+	}
+	_, isNil := info.ObjectOf(id).(*types.Nil)
+	return isNil
+}
+
+// nilTest: e is `x == nil` / `x != nil` (either operand order) for an error-typed local x.
+func (f *c04Flow) nilTest(info *types.Info, e *ast.BinaryExpr) (slot string, eq bool, ok bool) {
+	if e.Op != token.EQL && e.Op != token.NEQ {
+		return "", false, false
+	}
+	x, y := e.X, e.Y
+	if c04IsNilIdent(info, x) {
+		x, y = y, x
+	}
+	if !c04IsNilIdent(info, y) {
+		return "", false, false
+	}
+	k, ok := f.nilSlot(info, x)
+	return k, e.Op == token.EQL, ok
 }
 
 // eval: value of a boolean expression under env (known=false: not decided by env).
@@ -123,6 +254,10 @@ func (f *c04Flow) eval(info *types.Info, e ast.Expr, env c04Env, depth int) (val
 				b, kb := f.eval(info, t.Y, env, depth)
 				return (a == b) == (t.Op == token.EQL), ka && kb
 			}
+			if k, eq, ok := f.nilTest(info, t); ok {
+				v, known := env[k]
+				return v == eq, known
+			}
 		}
 	case *ast.CallExpr:
 		// zero-argument accessor with the body `return <expr>`: only the tracked fields carry over
@@ -149,6 +284,20 @@ func (f *c04Flow) eval(info *types.Info, e ast.Expr, env c04Env, depth int) (val
 func (f *c04Flow) transfer(info *types.Info, n ast.Node, env c04Env, skip map[*ast.CallExpr]bool) c04Env {
 	out := env
 	set := func(lhs ast.Expr, rhs ast.Expr) {
+		if nk, isErr := f.nilSlot(info, lhs); isErr {
+			out = out.clone()
+			delete(out, nk)
+			if rhs != nil {
+				if c04IsNilIdent(info, rhs) {
+					out[nk] = true
+				} else if rk, ok := f.nilSlot(info, rhs); ok {
+					if v, known := env[rk]; known {
+						out[nk] = v
+					}
+				}
+			}
+			return
+		}
 		k, ok := f.slot(info, lhs)
 		if !ok {
 			return
@@ -182,6 +331,9 @@ func (f *c04Flow) transfer(info *types.Info, n ast.Node, env c04Env, skip map[*a
 					if k, ok := f.slot(info, id); ok {
 						out = out.clone()
 						out[k] = false
+					} else if nk, ok := f.nilSlot(info, id); ok {
+						out = out.clone()
+						out[nk] = true
 					}
 				default:
 					set(id, nil)
@@ -253,7 +405,11 @@ func (f *c04Flow) explore(g *FG, init c04Env, depth int, active map[*FG]bool, vi
 			// calls analysed in their own graph
 			var subs []*ast.CallExpr
 			var subG []*FG
-			if f.descend != nil && depth < 3 {
+			limit := 3
+			if f.maxDepth > 0 {
+				limit = f.maxDepth
+			}
+			if f.descend != nil && depth < limit {
 				if _, isGo := n.(*ast.GoStmt); !isGo {
 					inspectNoLit(n, func(m ast.Node) bool {
 						if call, ok := m.(*ast.CallExpr); ok {
@@ -277,6 +433,9 @@ func (f *c04Flow) explore(g *FG, init c04Env, depth int, active map[*FG]bool, vi
 				var next []c04Env
 				dedup := map[string]bool{}
 				for _, e := range envs {
+					if f.bindArgs {
+						e = f.bound(info, call, subG[j], e)
+					}
 					f.explore(subG[j], e, depth+1, active, visit, func(ex c04Env) {
 						if k := ex.key(); !dedup[k] {
 							dedup[k] = true
@@ -306,6 +465,13 @@ func (f *c04Flow) explore(g *FG, init c04Env, depth int, active map[*FG]bool, vi
 		if len(succs) == 2 {
 			if cd := g.BranchCond(it.b); cd != nil && cd.Alts == nil {
 				var v, known bool
+				if f.refine && cd.Tag == nil {
+					if _, known = f.eval(info, cd.Expr, env, 0); !known {
+						work = append(work, item{succs[0], 0, f.assume(info, cd.Expr, true, env, 0)})
+						work = append(work, item{succs[1], 0, f.assume(info, cd.Expr, false, env, 0)})
+						continue
+					}
+				}
 				if cd.Tag == nil {
 					v, known = f.eval(info, cd.Expr, env, 0)
 				} else if c04IsBool(info, cd.Tag) {
